@@ -732,6 +732,33 @@ pub fn pat(t: u32, k: u32, j: u32) -> u8 {
     (x % 255 + 1) as u8
 }
 
+/// Payload of sample k of track t. Mostly the non-zero pattern; about one sample in three has
+/// content that a codec-aware or structure-sniffing writer/reader might be tempted to touch:
+/// an Annex B start code in front, all zero bytes, all 0xFF, the first bytes of a box header, or an
+/// ADTS frame header.
+/// The library must treat sample data as opaque.
 pub fn sample_bytes(t: u32, k: u32, len: u32) -> Vec<u8> {
-    (0..len).map(|j| pat(t, k, j)).collect()
+    let mut v: Vec<u8> = (0..len).map(|j| pat(t, k, j)).collect();
+    let prefix: &[u8] = match t.wrapping_mul(31).wrapping_add(k.wrapping_mul(17)) % 23 {
+        0 => &[0, 0, 0, 1],
+        1 => &[0, 0, 1],
+        2 => {
+            v.iter_mut().for_each(|b| *b = 0);
+            &[]
+        }
+        3 => {
+            v.iter_mut().for_each(|b| *b = 0xff);
+            &[]
+        }
+        4 => &[0, 0, 0, 16, b'm', b'o', b'o', b'f'],
+        5 => &[0, 0, 0, 2, 0x09, 0x10],
+        // ADTS sync word with a frame-length field of 0, and one with a plausible length + CRC flag
+        6 => &[0xff, 0xf1, 0x50, 0x80, 0x00, 0x1f, 0xfc],
+        7 => &[0xff, 0xf0, 0x50, 0x80, 0x01, 0x1f, 0xfc, 0xde, 0xad],
+        8 => &[0xff, 0xf9, 0, 0, 0, 0, 0, 0, 0],
+        _ => &[],
+    };
+    let n = prefix.len().min(v.len());
+    v[..n].copy_from_slice(&prefix[..n]);
+    v
 }
